@@ -64,7 +64,7 @@ pub fn decode_program(data: &[u8]) -> Option<(Program, u8)> {
     for ch in data[2..].chunks(5).take(80) {
         let a = u16_at(ch, 1);
         let b = u16_at(ch, 3);
-        ops.push(match ch[0] % 16 {
+        ops.push(match ch[0] % 17 {
             0 | 1 => Op::Var(a as u8),
             2 => Op::Const(a & 1 == 1),
             3 => Op::Not(a),
@@ -78,7 +78,8 @@ pub fn decode_program(data: &[u8]) -> Option<(Program, u8)> {
             12 => Op::Serde,
             13 => Op::Rebuild,
             14 => Op::AdfNodeList,
-            _ => Op::AdfSerde,
+            15 => Op::AdfSerde,
+            _ => Op::FixImport,
         });
     }
     Some((Program { k, ops }, goal))
@@ -94,7 +95,7 @@ pub fn fz_bddops(data: &[u8]) -> Result<(), String> {
     ok(props::bdd::run_program(&prog, props::bdd::Focus::Function, &mut st))?;
     ok(props::counts::c13_ops_entry(&prog, goal, &mut st))?;
     {
-        let plain: Vec<Op> = prog.ops.iter().filter(|o| !matches!(o, Op::Serde | Op::Rebuild | Op::AdfNodeList | Op::AdfSerde)).cloned().collect();
+        let plain: Vec<Op> = prog.ops.iter().filter(|o| !matches!(o, Op::Serde | Op::Rebuild | Op::AdfNodeList | Op::AdfSerde | Op::FixImport)).cloned().collect();
         if !plain.is_empty() {
             let sched = data
                 .iter()
